@@ -749,11 +749,15 @@ func c07CarriedAcrossRetries(c *Ctx, r *Report) {
 			}
 		}
 	}
+	// the caller may record the assigned sequence regardless of the outcome (store docSequence ← doc.Sequence executed on
+	// every path after the call, before the error is examined)
+	callerRecords := c07CallerRecordsSequence(c)
 	if len(later) == 0 {
 		r.Pass("C07-R4", "fn="+name+" no-failure-exit-after=assignSequence", c.Pos(a.Pos()), "no error exit between sequence assignment and return")
 	}
 	for cal, call := range later {
-		r.Fail("C07-R4", fmt.Sprintf("fn=%s failure-exit-after=assignSequence via=%s", name, cal), c.Pos(call.Pos()),
+		r.Check("C07-R4", fmt.Sprintf("fn=%s failure-exit-after=assignSequence via=%s", name, cal), c.Pos(call.Pos()), callerRecords,
+			"the CAS callback records the assigned sequence on every path after documentUpdateFunc returns, so a later failure still releases it",
 			"documentUpdateFunc can fail after assignSequence succeeded; the caller records docSequence only on success, so the freshly allocated number is neither stored nor released")
 	}
 	// named result retUnusedSequences on error exits: bare return yields nil => carried sequences dropped
@@ -793,6 +797,57 @@ func c07CarriedAcrossRetries(c *Ctx, r *Report) {
 			}
 		}
 	}
+}
+
+// c07CallerRecordsSequence: in the CAS callback of updateAndReturnDoc, every return reachable after the documentUpdateFunc call
+// is preceded by a store of doc.Sequence into the docSequence retry cell.
+func c07CallerRecordsSequence(c *Ctx) bool {
+	top := c.Func("(*db.DatabaseCollectionWithUser).updateAndReturnDoc")
+	if top == nil {
+		return false
+	}
+	seqF := c.Field("db.SyncData", "Sequence")
+	for _, lit := range top.AnonFuncs {
+		for _, call := range c.Calls(lit, false, nameIs("(*db.DatabaseCollectionWithUser).documentUpdateFunc")) {
+			args := callArgs(call)
+			if len(args) < 6 {
+				return false
+			}
+			ad, ok := loadOf(args[4])
+			if !ok {
+				return false
+			}
+			cell := rootAddr(ad)
+			var recs []ssa.Instruction
+			EachInstr(lit, false, func(in ssa.Instruction) {
+				if st, ok := in.(*ssa.Store); ok && rootAddr(st.Addr) == cell {
+					if f, _ := fieldRead(st.Val); f == seqF {
+						recs = append(recs, st)
+					}
+				}
+			})
+			if len(recs) == 0 {
+				return false
+			}
+			// guards of the form `if doc.Sequence != existing { docSequence = doc.Sequence }` are accepted: the skipped edge is the
+			// one on which no new sequence was assigned. Edges comparing doc.Sequence with a value read before the call:
+			same := EdgesWhere(lit, func(cond ssa.Value) (bool, bool) {
+				b, ok := cond.(*ssa.BinOp)
+				if !ok || (b.Op != token.EQL && b.Op != token.NEQ) {
+					return false, false
+				}
+				fx, _ := fieldRead(b.X)
+				fy, _ := fieldRead(b.Y)
+				if fx == seqF || fy == seqF {
+					return true, b.Op == token.EQL
+				}
+				return false, false
+			})
+			leak := ReachAfter(call, func(in ssa.Instruction) bool { _, ok := in.(*ssa.Return); return ok }, NewAvoid().AddInstr(recs...).AddEdge(same...))
+			return leak == nil
+		}
+	}
+	return false
 }
 
 // isZeroLoad: a load of a named-result cell that has not been stored to on this path is indistinguishable here; approximate: value is a load of an Alloc.
@@ -839,6 +894,17 @@ func c07PrincipalSite(c *Ctx, r *Report, fname, write string) {
 	for i, w := range ws {
 		wc, ok := w.(*ssa.Call)
 		if !ok {
+			continue
+		}
+		// only writes that can follow an allocation carry a sequence
+		after := false
+		for _, al := range allocs {
+			if ReachAfter(al, func(in ssa.Instruction) bool { return in == ssa.Instruction(wc) }, nil) != nil {
+				after = true
+			}
+		}
+		if !after {
+			r.Pass("C07-R4", fmt.Sprintf("fn=%s write=%s #%d no-allocation-precedes", fname, write, i+1), c.Pos(w.Pos()), "no sequence is allocated on the paths to this write")
 			continue
 		}
 		var ev ssa.Value = wc
